@@ -14,7 +14,17 @@ mkdir -p "$S/inst" || exit 2
 if [ ! -x "$VERIF/bin/instrument" ] || [ "$VERIF/cmd/instrument/main.go" -nt "$VERIF/bin/instrument" ]; then
   (cd "$VERIF" && $GO build -o "$VERIF/bin/instrument" ./cmd/instrument) || { echo "BUILD: instrumenter failed" >&2; exit 2; }
 fi
-"$VERIF/bin/instrument" -repo "$REPO" -out "$S/inst" -overlay "$S/overlay.json" -extra "$VERIF/sim" > "$S/census.json" || { echo "BUILD: instrumentation failed" >&2; exit 2; }
+EXTRA="$VERIF/sim"
+if [ "$RACE" = "race" ]; then
+  # race builds: the harness' own memory accesses are not the subject: every harness function is
+  # compiled without race instrumentation (its synchronisation is hidden by zz_vsim_race_on.go)
+  mkdir -p "$S/simrace" || exit 2
+  for f in "$VERIF"/sim/*.go; do
+    awk '/^func /{print "//go:norace"} {print}' "$f" > "$S/simrace/$(basename "$f")" || exit 2
+  done
+  EXTRA="$S/simrace"
+fi
+"$VERIF/bin/instrument" -repo "$REPO" -out "$S/inst" -overlay "$S/overlay.json" -extra "$EXTRA" > "$S/census.json" || { echo "BUILD: instrumentation failed" >&2; exit 2; }
 sed -e 's/^go 1\.[0-9.]*$/go 1.26/' "$REPO/go.mod" > "$S/sim.mod"
 cat >> "$S/sim.mod" <<EOF
 
